@@ -61,13 +61,22 @@ def check(F, rep):
             lens_ok = srcs == ["key", "sig", "ts", "payload"]
             rep.ob("ctor_invariant", lens_ok, site(f, b), "from_txt_strings lays out key(32) | signature(64) | timestamp(8) | payload in that order: %s" % srcs, "%s|layout" % src)
         else:
-            hs = []
-            for cb, s, ts in cmp_tests(f, ops=("Lt", "Ge", "Gt", "Le")):
-                consts = {x[4].get("def") for o in (s["rv"]["a"], s["rv"]["b"]) if o["k"] != "const" for x in du.origin_facts(op_base(o), kinds=("const",))} | {o.get("def") for o in (s["rv"]["a"], s["rv"]["b"]) if o["k"] == "const"}
-                if "iroh_dns::pkarr::HEADER_SIZE" in consts and s["rv"]["op"] == "Lt":
-                    if requires_failure(f, b, ts):
-                        hs.append(cb)
-            lens_ok = bool(hs)
+            # lower bound on the length, whatever the idiom (if-chain, range match, helper)
+            from ..inline import inlined
+            fi = inlined(F, f)
+            hdr = const_int(F, {"k": "const", "def": "iroh_dns::pkarr::HEADER_SIZE"})
+
+            def is_len(o, fi=fi):
+                l = op_base(o)
+                if l is None:
+                    return False
+                dc = def_call(fi, l)
+                if dc is None or not re.search(r"::len$", callee_names(dc[1])[0]):
+                    return False
+                r = copy_sources(fi, op_base(dc[1]["args"][0]))
+                return bool(r) and all(y[0] == "arg" and y[1] == 1 for y in r)
+            # the construction block is the same block id in the inlined view (blocks are appended)
+            lens_ok, ntests = (False, 0) if hdr is None else unreachable_when(F, fi, b, is_len, (0, 1, hdr - 1))
             rep.ob("ctor_invariant", lens_ok, site(f, b), "%s: construction requires !(bytes.len() < HEADER_SIZE) - the accessors slice [..32], [32..96], [96..104], [104..]" % name, "%s|min-len" % src)
 
     # ---- from_bytes: authenticity
